@@ -26,6 +26,12 @@ pub fn check(tier: Tier) -> Check {
             (Tier::Thorough, _) => 6,
         };
         parts.push(Part::new("C06/interleave", json!({"depth": d}), k, tier.pick(30, 400)));
+        if k < 2 {
+            // the same with the send quota exhausted at some point (Receive Maximum 1 and 2)
+            for r in [1u64, 2] {
+                parts.push(Part::new("C06/interleave", json!({"depth": d - 1, "r": r}), k, tier.pick(30, 400)));
+            }
+        }
     }
     Check {
         also_rel: false,
@@ -51,13 +57,14 @@ fn pub_specs() -> Vec<OpSpec> {
 
 pub fn scenario(name: &str, params: &Value) -> Scenario {
     let depth = params["depth"].as_u64().unwrap_or(4) as usize;
+    let r = params["r"].as_u64().unwrap_or(0) as u16;
     let params = params.clone();
     let name = name.to_string();
     let all_reasons = name == "C06/reasons";
     Box::new(move |chz, ex| {
         let mut sys = Sys::new("C06", &name, chz);
         sys.params = params.clone();
-        sys.bring_up(vec![]);
+        sys.bring_up(if r == 0 { vec![] } else { receive_max(r) });
         if all_reasons {
             sys.set_write_mode(WriteMode::Explore);
         }
@@ -104,7 +111,7 @@ pub fn scenario(name: &str, params: &Value) -> Scenario {
                 if s.m.pings.is_empty() && s.m.ops.len() < 4 {
                     e.push(Ev::Start(OpSpec::Ping));
                 }
-                e.extend(broker_acks(s, true, false));
+                e.extend(broker_acks_ext(s, true, false, r != 0));
             }
             e
         };
